@@ -212,7 +212,7 @@ func gen(rng *h.Rng, tier string, emit func(string)) {
 	thorough := tier == "thorough"
 	rounds := 1
 	if thorough {
-		rounds = 6
+		rounds = 3
 	}
 	for round := 0; round < rounds; round++ {
 		for n := 0; n <= 70; n++ {
@@ -259,7 +259,7 @@ func gen(rng *h.Rng, tier string, emit func(string)) {
 				}
 				// single-index cases (replayable one by one): every index for short sequences and
 				// for the thorough tier, the ends and a sample otherwise
-				full := thorough || n <= 12
+				full := n <= 12 || (thorough && (fi < 2 || n <= 24))
 				for i := 0; i < n; i++ {
 					if !(full || i == 0 || i == n-1 || rng.Chance(1, 8)) {
 						continue
